@@ -644,6 +644,16 @@ func (x *Exec) doMapUpdate(st *State, i *ssa.MapUpdate) {
 	x.oblige(st, "nil", x.anchor(i, "map update"), g, "assignment to entry in nil map", i, nil)
 	st.Assume(g)
 	x.heldCheckMap(st, i.Map, i, true)
+	// call-site style clauses anchored at a map store: "site mapstore:<field> assert ..." (arg0 key, arg1 value)
+	if st.Frame.Fn == x.Fn && x.FC != nil && (len(x.FC.Sites) > 0 || len(x.FC.Ghosts) > 0) {
+		name := i.Map.Name()
+		if u, ok := i.Map.(*ssa.UnOp); ok {
+			if fa, ok := u.X.(*ssa.FieldAddr); ok {
+				name = fa.X.Type().Underlying().(*types.Pointer).Elem().Underlying().(*types.Struct).Field(fa.Field).Name()
+			}
+		}
+		x.siteBefore(st, i, "mapstore:"+name, []Value{x.val(st, i.Key), x.val(st, i.Value)})
+	}
 	pk, ks := x.mapKeys(st, mt)
 	if isStringType(mt.Key()) {
 		ks = SInt
